@@ -29,6 +29,8 @@ enum Kind
     INIT_LIST,
     FIXED_VECTOR,
     VECTOR_STRING,
+    CHAR_ARRAY, // char[K], const char[K]: byte tables, possibly ending in a zero byte
+    HUGE_RANGE, // a computed range of more than 2^32 elements (thorough tier only)
     KIND_COUNT
 };
 enum Cat
@@ -48,7 +50,7 @@ static const char* kind_name(int k)
 {
     static const char* n[] = { "vector<int>",  "deque<int>",   "list<int>",       "map<int,int>",
                                "string",       "std::array",   "int[K]",          "initializer_list",
-                               "fixed_vector<int>", "vector<string>" };
+                               "fixed_vector<int>", "vector<string>", "char[K]", "computed range of 2^32+5 elements" };
     return k >= 0 && k < KIND_COUNT ? n[k] : "?";
 }
 
@@ -81,7 +83,8 @@ std::string describe(const Case& c)
     std::ostringstream o;
     o << (c.what == ENUMERATE ? "enumerate" : "reverse") << "("
       << (c.cat == LVALUE ? "lvalue " : c.cat == CONST_LVALUE ? "const " : c.cat == RVALUE ? "temporary " : "const temporary ")
-      << (c.style == 1 ? "[it++ loop] " : c.style == 2 ? "[const loop variable] " : c.style == 3 ? "[range object moved first] " : "")
+      << (c.style == 1 ? "[it++ loop] " : c.style == 2 ? "[const loop variable] " : c.style == 3 ? "[range object moved first] " :
+          c.style == 4 ? "[a second range of the same type and length walked inside the loop] " : "")
       << kind_name(c.kind) << " of length " << c.vals.size();
     if (c.kind == FIXED_VECTOR)
         o << " capacity " << c.vals.size() + static_cast<std::size_t>(c.extra_cap);
@@ -96,7 +99,7 @@ static bool static_len_ok(int kind, std::size_t n)
 {
     if (kind == STD_ARRAY)
         return n == 0 || n == 1 || n == 2 || n == 3 || n == 7;
-    if (kind == BUILTIN_ARRAY)
+    if (kind == BUILTIN_ARRAY || kind == CHAR_ARRAY)
         return n == 1 || n == 2 || n == 3 || n == 7;
     if (kind == INIT_LIST)
         return n <= 4;
@@ -107,20 +110,25 @@ Case generate(vf::Src& src, const std::string& mode)
 {
     Case c;
     bool ex = mode == "ex";
-    c.kind = src.irange(0, KIND_COUNT - 1);
+    if (mode == "huge")
+    {
+        c.kind = HUGE_RANGE;
+        return c;
+    }
+    c.kind = src.irange(0, KIND_COUNT - 2);
     c.cat = src.irange(0, 3);
     c.what = src.irange(0, 1);
-    c.style = src.irange(0, 3);
+    c.style = src.irange(0, 4);
     int n;
     if (c.kind == STD_ARRAY)
         n = std::vector<int>{ 0, 1, 2, 3, 7 }[src.index(5)];
-    else if (c.kind == BUILTIN_ARRAY)
+    else if (c.kind == BUILTIN_ARRAY || c.kind == CHAR_ARRAY)
         n = std::vector<int>{ 1, 2, 3, 7 }[src.index(4)];
     else if (c.kind == INIT_LIST)
         n = src.irange(0, 4);
     else
         n = (ex || src.coin(94)) ? src.irange(0, 8) : std::vector<int>{ 15, 16, 17, 33, 64, 100 }[src.index(6)];
-    if (c.kind == BUILTIN_ARRAY && c.cat >= RVALUE)
+    if ((c.kind == BUILTIN_ARRAY || c.kind == CHAR_ARRAY) && c.cat >= RVALUE)
         c.cat = c.cat == RVALUE ? LVALUE : CONST_LVALUE; // there are no array temporaries
     if (c.kind == INIT_LIST)
         c.cat = RVALUE; // a braced list is always a temporary
@@ -129,7 +137,10 @@ Case generate(vf::Src& src, const std::string& mode)
     for (int i = 0; i < n; ++i)
     {
         if (ex)
-            c.vals.push_back(10 * (i + 1) + (i % 3)); // fixed distinct values
+            c.vals.push_back(c.kind == CHAR_ARRAY && i == n - 1 ? 0 : 10 * (i + 1) + (i % 3)); // fixed distinct values
+        else if (c.kind == CHAR_ARRAY)
+            // distinct bytes; every other table ends in a zero byte (it is data, not a terminator)
+            c.vals.push_back(i == n - 1 && src.coin(50) ? 0 : 33 + (src.irange(0, 9) + 10 * i) % 90);
         else if (c.kind == STRING)
             c.vals.push_back(33 + (src.irange(0, 9) + 10 * i) % 90); // printable, distinct
         else
@@ -156,13 +167,10 @@ static long val(const std::string& s)
 {
     return std::atol(s.c_str());
 }
-static long val(const std::reference_wrapper<int>& r)
+template <class T>
+static long val(const std::reference_wrapper<T>& r)
 {
-    return r.get();
-}
-static long val(const std::reference_wrapper<const int>& r)
-{
-    return r.get();
+    return val(r.get());
 }
 
 static void setv(int& x, long v)
@@ -181,9 +189,10 @@ static void setv(std::string& s, long v)
 {
     s = std::to_string(v) + std::string(40, '.');
 }
-static void setv(const std::reference_wrapper<int>& r, long v)
+template <class T>
+static void setv(const std::reference_wrapper<T>& r, long v)
 {
-    r.get() = static_cast<int>(v);
+    setv(r.get(), v);
 }
 
 template <class T>
@@ -191,18 +200,15 @@ static const void* addr(const T& x)
 {
     return &x;
 }
-static const void* addr(const std::reference_wrapper<int>& r)
-{
-    return &r.get();
-}
-static const void* addr(const std::reference_wrapper<const int>& r)
+template <class T>
+static const void* addr(const std::reference_wrapper<T>& r)
 {
     return &r.get();
 }
 
 static long write_value(long old, int kind)
 {
-    return kind == STRING ? 33 + (old + 7) % 90 : old + 500000;
+    return kind == STRING || kind == CHAR_ARRAY ? 33 + (old + 7) % 90 : old + 500000;
 }
 
 // ---------------------------------------------------------------- builders
@@ -483,11 +489,32 @@ static const C make_const(const Case& c)
     return Make<C>::make(c);
 }
 
+template <class R1, class R2>
+static void nested_walk(R1& a1, R2& a2, const std::vector<long>& e1, const std::vector<long>& e2, const Case& c,
+                        Result& r);
+
 template <class C>
 static void run_container(const Case& c, Result& r)
 {
     using nitro::lang::enumerate;
     using nitro::lang::reverse;
+    if (c.style == 4 && c.cat <= CONST_LVALUE)
+    {
+        Case c2 = c;
+        for (auto& v : c2.vals)
+            v += 1;
+        C cont = Make<C>::make(c), other = Make<C>::make(c2);
+        auto e1 = contents(cont), e2 = contents(other);
+        if (c.cat == CONST_LVALUE)
+        {
+            const C& k1 = cont;
+            const C& k2 = other;
+            nested_walk(k1, k2, e1, e2, c, r);
+        }
+        else
+            nested_walk(cont, other, e1, e2, c, r);
+        return;
+    }
     if (c.cat == LVALUE)
     {
         C cont = Make<C>::make(c);
@@ -549,20 +576,116 @@ static void run_container(const Case& c, Result& r)
     }
 }
 
-template <std::size_t K>
+// a second range of the same type and length is walked completely inside every step of the
+// loop over the first (and a view of it is alive next to the first view): each walk sees its own range
+template <class R1, class R2>
+static void nested_walk(R1& a1, R2& a2, const std::vector<long>& e1, const std::vector<long>& e2, const Case& c,
+                        Result& r)
+{
+    using nitro::lang::enumerate;
+    using nitro::lang::reverse;
+    std::vector<long> got1, got2, want1 = e1, want2;
+    std::vector<long> one2 = e2;
+    if (c.what == REVERSE)
+    {
+        std::reverse(want1.begin(), want1.end());
+        std::reverse(one2.begin(), one2.end());
+    }
+    for (std::size_t k = 0; k < e1.size(); ++k)
+        want2.insert(want2.end(), one2.begin(), one2.end());
+    std::size_t guard = 0;
+    if (c.what == REVERSE)
+    {
+        for (auto& x : reverse(a1))
+        {
+            got1.push_back(val(x));
+            for (auto& y : reverse(a2))
+            {
+                got2.push_back(val(y));
+                if (++guard > 100000)
+                    break;
+            }
+            if (guard > 100000)
+                break;
+        }
+    }
+    else
+    {
+        for (auto x : enumerate(a1))
+        {
+            if (x.index() != got1.size())
+                r.fail("enumerate (outer of two nested loops): visit " + std::to_string(got1.size()) +
+                       " carries index " + std::to_string(x.index()));
+            got1.push_back(val(x.value()));
+            std::size_t j = 0;
+            for (auto y : enumerate(a2))
+            {
+                if (y.index() != j++)
+                    r.fail("enumerate (inner of two nested loops): wrong index");
+                got2.push_back(val(y.value()));
+                if (++guard > 100000)
+                    break;
+            }
+            if (guard > 100000)
+                break;
+        }
+    }
+    const char* what = c.what == REVERSE ? "reverse" : "enumerate";
+    if (got1 != want1)
+        r.fail(std::string(what) + ": the outer of two nested loops over two ranges of the same type and length visits " +
+               seq(got1) + ", its range holds " + seq(e1) + " (the inner range holds " + seq(e2) + ")");
+    if (got2 != want2)
+        r.fail(std::string(what) + ": the inner of two nested loops visits " + seq(got2) + ", expected " + seq(want2));
+    // two views alive at the same time, walked one after the other
+    if (c.what == REVERSE)
+    {
+        auto v1 = reverse(a1);
+        auto v2 = reverse(a2);
+        std::vector<long> g1, g2;
+        for (auto& x : v1)
+            g1.push_back(val(x));
+        for (auto& y : v2)
+            g2.push_back(val(y));
+        if (g1 != want1 || g2 != one2)
+            r.fail("reverse: of two views alive at the same time the first visits " + seq(g1) + " (expected " +
+                   seq(want1) + "), the second " + seq(g2) + " (expected " + seq(one2) + ")");
+    }
+}
+
+template <class E, std::size_t K>
 static void run_builtin(const Case& c, Result& r)
 {
     using nitro::lang::enumerate;
     using nitro::lang::reverse;
-    int arr[K];
+    E arr[K];
     for (std::size_t i = 0; i < K; ++i)
-        arr[i] = c.vals[i];
+        arr[i] = static_cast<E>(c.vals[i]);
     std::vector<const void*> a;
     for (std::size_t i = 0; i < K; ++i)
         a.push_back(&arr[i]);
+    if (c.style == 4)
+    {
+        E other[K];
+        std::vector<long> e1, e2;
+        for (std::size_t i = 0; i < K; ++i)
+        {
+            other[i] = static_cast<E>(c.vals[i] + 1);
+            e1.push_back(val(arr[i]));
+            e2.push_back(val(other[i]));
+        }
+        if (c.cat == CONST_LVALUE)
+        {
+            const E(&c1)[K] = arr;
+            const E(&c2)[K] = other;
+            nested_walk(c1, c2, e1, e2, c, r);
+        }
+        else
+            nested_walk(arr, other, e1, e2, c, r);
+        return;
+    }
     if (c.cat == CONST_LVALUE)
     {
-        const int(&carr)[K] = arr;
+        const E(&carr)[K] = arr;
         if (c.what == ENUMERATE)
             VF_WALK_ENUM(enumerate(carr), "(const array)", &a);
         else
@@ -575,11 +698,13 @@ static void run_builtin(const Case& c, Result& r)
         std::vector<long> want;
         for (auto x : enumerate(arr))
         {
-            long nv = write_value(x.value(), c.kind);
-            x.value() = static_cast<int>(nv);
+            long nv = write_value(val(x.value()), c.kind);
+            x.value() = static_cast<E>(nv);
             want.push_back(nv);
         }
-        std::vector<long> now(arr, arr + K);
+        std::vector<long> now;
+        for (std::size_t i = 0; i < K; ++i)
+            now.push_back(val(arr[i]));
         if (now != want)
             r.fail("enumerate (array): writes are not visible in the array");
     }
@@ -594,11 +719,70 @@ static void run_builtin(const Case& c, Result& r)
             want.push_back(nv);
         }
         std::reverse(want.begin(), want.end());
-        std::vector<long> now(arr, arr + K);
+        std::vector<long> now;
+        for (std::size_t i = 0; i < K; ++i)
+            now.push_back(val(arr[i]));
         if (now != want)
             r.fail("reverse (array): writes are not visible in the array: " + seq(now) + " expected " +
                    seq(want));
     }
+}
+
+// a range that computes its elements: the n-th element is n; 2^32 + 5 of them
+struct Computed
+{
+    std::uint64_t n;
+    struct iterator
+    {
+        std::uint64_t i;
+        std::uint64_t operator*() const
+        {
+            return i;
+        }
+        iterator& operator++()
+        {
+            ++i;
+            return *this;
+        }
+        bool operator!=(const iterator& o) const
+        {
+            return i != o.i;
+        }
+    };
+    iterator begin() const
+    {
+        return iterator{ 0 };
+    }
+    iterator end() const
+    {
+        return iterator{ n };
+    }
+};
+
+static void run_huge(Result& r)
+{
+    Computed range{ (std::uint64_t(1) << 32) + 5 };
+    std::uint64_t visits = 0, wrong = 0, first_wrong = 0, first_index = 0;
+    for (auto x : nitro::lang::enumerate(range))
+    {
+        if (x.index() != x.value())
+        {
+            if (!wrong)
+            {
+                first_wrong = x.value();
+                first_index = x.index();
+            }
+            ++wrong;
+        }
+        ++visits;
+    }
+    if (visits != range.n)
+        r.fail("enumerate over a range of " + std::to_string(range.n) + " elements made " + std::to_string(visits) +
+               " visits");
+    if (wrong)
+        r.fail("enumerate over a range of " + std::to_string(range.n) + " elements: " + std::to_string(wrong) +
+               " elements came with a wrong index, first: element " + std::to_string(first_wrong) +
+               " was paired with index " + std::to_string(first_index));
 }
 
 static void run_init_list(const Case& c, Result& r)
@@ -652,13 +836,13 @@ static void run_init_list(const Case& c, Result& r)
 std::string check(const Case& c, vf::Ctx& ctx)
 {
     Result r;
-    if (!static_len_ok(c.kind, c.vals.size()))
+    if (c.kind != HUGE_RANGE && !static_len_ok(c.kind, c.vals.size()))
         return "";
     ctx.tag(std::string("kind:") + kind_name(c.kind));
     ctx.tag(c.cat == LVALUE ? "cat:lvalue" : c.cat == CONST_LVALUE ? "cat:const" :
             c.cat == RVALUE ? "cat:temporary" : "cat:const-temporary");
     ctx.tag(c.style == 1 ? "style:post-increment-loop" : c.style == 2 ? "style:const-loop-variable" :
-            c.style == 3 ? "style:range-object-moved-first" : "style:range-for");
+            c.style == 3 ? "style:range-object-moved-first" : c.style == 4 ? "style:second-range-walked-inside" : "style:range-for");
     ctx.tag(c.what == ENUMERATE ? "what:enumerate" : "what:reverse");
     ctx.tag("len:" + std::to_string(c.vals.size()));
     // non-trivial: anything the suite does not have - length != 3, node based or
@@ -712,17 +896,38 @@ std::string check(const Case& c, vf::Ctx& ctx)
         switch (c.vals.size())
         {
         case 1:
-            run_builtin<1>(c, r);
+            run_builtin<int, 1>(c, r);
             break;
         case 2:
-            run_builtin<2>(c, r);
+            run_builtin<int, 2>(c, r);
             break;
         case 3:
-            run_builtin<3>(c, r);
+            run_builtin<int, 3>(c, r);
             break;
         default:
-            run_builtin<7>(c, r);
+            run_builtin<int, 7>(c, r);
         }
+        break;
+    case CHAR_ARRAY:
+        if (!c.vals.empty() && c.vals.back() == 0)
+            ctx.tag("char-array:ends-in-zero-byte");
+        switch (c.vals.size())
+        {
+        case 1:
+            run_builtin<char, 1>(c, r);
+            break;
+        case 2:
+            run_builtin<char, 2>(c, r);
+            break;
+        case 3:
+            run_builtin<char, 3>(c, r);
+            break;
+        default:
+            run_builtin<char, 7>(c, r);
+        }
+        break;
+    case HUGE_RANGE:
+        run_huge(r);
         break;
     case INIT_LIST:
         run_init_list(c, r);
@@ -734,4 +939,5 @@ std::string check(const Case& c, vf::Ctx& ctx)
 }
 } // namespace h
 
+#define VF_WATCHDOG_SECONDS 300
 #include "common/vmain.hpp"
